@@ -71,3 +71,14 @@ func TestLinearCountJump(t *testing.T) {
 	})
 	t.Logf("%d with jump of %d", j, cnt)
 }
+
+func TestLinearCountBranchExit(t *testing.T) {
+	for _, o := range []LinOpts{
+		{MaxNodes: 6, MinNodes: 6, Reduced: true, OneVar: true, NoOptional: true, Filter: BranchExitVsPartial},
+		{MaxNodes: 6, MinNodes: 6, OneVar: true, Filter: BranchExitVsPartial},
+	} {
+		cnt := 0
+		EnumLinear(o, func(toks []LinTok) bool { cnt++; return true })
+		t.Logf("%d", cnt)
+	}
+}
